@@ -333,6 +333,13 @@ func runFamily(spec *Spec, f *Family, variant, bin, tier string, seed int64) *fa
 				if crashed {
 					res.crashShards = append(res.crashShards, cur)
 					res.crashKinds = append(res.crashKinds, kind)
+					if len(res.crashShards) >= maxCrashShards && !f.FatalPerCase {
+						// the workers keep dying (or hanging): the rest of the family is not dealt out; what died so
+						// far is examined below and reported
+						atomic.StoreInt64(&next, int64(len(shards)))
+						res.Exhaustive = false
+						res.Cap = fmt.Sprintf("family abandoned after %d shards ended in the death of the worker", len(res.crashShards))
+					}
 				}
 				mu.Unlock()
 				if !crashed && errmsg == "" {
@@ -353,7 +360,11 @@ func runFamily(spec *Spec, f *Family, variant, bin, tier string, seed int64) *fa
 	}
 	// crash triage
 	for i, sh := range res.crashShards {
-		if i >= maxTriage && !f.FatalPerCase && len(res.viol) > 0 {
+		limit := maxTriage
+		if f.HangSeconds > 0 && f.HangSeconds <= 60 {
+			limit = 1 // short-horizon families: one attributed death or hang is enough
+		}
+		if i >= limit && !f.FatalPerCase && len(res.viol) > 0 {
 			// a change that makes the process die in hundreds of shards would keep the triage busy for hours:
 			// once deaths have been attributed and reported, the remaining ones are only counted
 			res.Exhaustive = false
@@ -368,6 +379,9 @@ func runFamily(spec *Spec, f *Family, variant, bin, tier string, seed int64) *fa
 
 // maxTriage bounds the number of crashed shards examined case by case per family (see runFamily).
 const maxTriage = 6
+
+// maxCrashShards: a family whose workers died this often is abandoned (the deaths are still examined).
+const maxCrashShards = 24
 
 func mergeFinal(res *famResult, fin *workerFinal) {
 	res.Leaves += fin.Leaves
@@ -547,6 +561,15 @@ func crashKind(stderr string) string {
 	return "died"
 }
 
+// triageWait: a family that declares a short hang horizon (its executions take microseconds: anything that
+// stands still for that long is blocked for good) is also triaged with short waits.
+func triageWait(f *Family, def int) int {
+	if f.HangSeconds > 0 && f.HangSeconds <= 60 {
+		return 2*f.HangSeconds + 15
+	}
+	return def
+}
+
 // triageCrash re-runs the crashed shard in trace mode to find the culprit
 // leaf, then confirms it 3x in fresh processes (DESIGN.md §2.1).
 func triageCrash(res *famResult, bin string, f *Family, tier, variant string, shard []int, kind string, hang int) {
@@ -571,7 +594,7 @@ func triageCrash(res *famResult, bin string, f *Family, tier, variant string, sh
 			res.engineErrs = append(res.engineErrs, fmt.Sprintf("worker death (%s) in shard %v of %s not reproducible in trace mode", kind, shard, f.Name))
 			return
 		}
-	case <-time.After(time.Duration(hang*3+600) * time.Second):
+	case <-time.After(time.Duration(triageWait(f, hang*3+600)) * time.Second):
 		cmd.Process.Kill()
 		<-done
 	}
@@ -587,7 +610,7 @@ func triageCrash(res *famResult, bin string, f *Family, tier, variant string, sh
 	deaths := 0
 	var k2 string
 	for i := 0; i < 3; i++ {
-		died, k, _ := runSingle(bin, f, tier, variant, choices, hang*5)
+		died, k, _ := runSingle(bin, f, tier, variant, choices, triageWait(f, hang*5))
 		if died {
 			deaths++
 			k2 = k
